@@ -44,8 +44,10 @@ where
               *r = Some(x);
             }
           }
-          if let Some(x) = &*result_next.read().unwrap() {
-            sctl_next.sink_next(x.clone());
+          // copy the value out: no lock is held while downstream runs
+          let current = result_next.read().unwrap().clone();
+          if let Some(x) = current {
+            sctl_next.sink_next(x);
           }
         },
         move |_, e| {
